@@ -54,6 +54,8 @@ type c13Attempt struct {
 
 type c13Case struct {
 	Attempts []c13Attempt `json:"attempts"`
+	// Limits: the jobs carry sample_limit / label_limit / body_size_limit (far above anything the payloads reach)
+	Limits bool `json:"limits,omitempty"`
 }
 
 func recC13() *vkit.Recorder {
@@ -140,7 +142,12 @@ func runC13(rec *vkit.Recorder, c *c13Case) []vkit.Violation {
 		}
 		return &http.Response{StatusCode: 200, Status: "200 OK", Header: h, Request: r, Body: &chunkReader{data: pl, cuts: cuts, fail: -1}}, nil
 	})
-	n, err := newNode(dir, c13Config, rt)
+	conf := c13Config
+	if c.Limits {
+		conf = strings.Replace(conf, "- job_name: ja\n", "- job_name: ja\n  sample_limit: 1000000\n  label_limit: 64\n  body_size_limit: 64MB\n", 1)
+		conf = strings.Replace(conf, "- job_name: jt\n", "- job_name: jt\n  body_size_limit: 64MB\n", 1)
+	}
+	n, err := newNode(dir, conf, rt)
 	if err != nil {
 		return []vkit.Violation{{Key: "C13/harness", Msg: err.Error()}}
 	}
@@ -352,7 +359,7 @@ func runC13(rec *vkit.Recorder, c *c13Case) []vkit.Violation {
 }
 
 func genC13(t *rapid.T) *c13Case {
-	c := &c13Case{}
+	c := &c13Case{Limits: rapid.Bool().Draw(t, "limits")}
 	n := rapid.IntRange(1, 6).Draw(t, "nAttempts")
 	timeouts := 0
 	for i := 0; i < n; i++ {
